@@ -291,6 +291,8 @@ impl CoreInner {
 			})?;
 
 		log::debug!("Created SST table_id={}, file_size={}", table.id, table.file_size);
+		#[cfg(surrealkv_verif)]
+		crate::verif::gate("flush.written", &[("table", table_id)]);
 
 		// Step 2: Write to versioned index (B+tree) with vlog-separated values
 		// Note: Replace entries are NOT cleaned up here. The HistoryIterator uses
